@@ -506,11 +506,11 @@ func (s *Session) sendError(err error) (e error) {
 	verifhook.Yield("senderror.enter")
 	s.out.Lock()
 	defer s.out.Unlock()
-	s.stateMutex.Lock()
-	defer s.stateMutex.Unlock()
 	verifhook.Yield("senderror.locked")
 
-	if s.state&OutputStreamClosed == OutputStreamClosed {
+	// The output lock is held: nobody else can close the output stream between
+	// this test and closeSession below.
+	if s.outputClosed() {
 		return err
 	}
 
@@ -897,19 +897,28 @@ func (s *Session) Close() error {
 	verifhook.Yield("close.enter")
 	s.out.Lock()
 	defer s.out.Unlock()
-	s.stateMutex.Lock()
-	defer s.stateMutex.Unlock()
 	verifhook.Yield("close.locked")
 
 	return s.closeSession()
 }
 
+// closeSession marks the output stream as closed and, if it was not closed
+// already, writes the closing element.
+// The caller must hold the output lock: it is what serializes writers and makes
+// the test-and-set below decide who writes the closing element.
+// The state lock is only held to flip the bit, never across the write: a write
+// to a peer that is not reading blocks, and readers of the session state (the
+// serve loop among them, which may be what the peer is waiting for) must not
+// block behind it.
 func (s *Session) closeSession() error {
-	if s.state&OutputStreamClosed == OutputStreamClosed {
+	s.stateMutex.Lock()
+	closed := s.state&OutputStreamClosed == OutputStreamClosed
+	s.state |= OutputStreamClosed
+	s.stateMutex.Unlock()
+	if closed {
 		return nil
 	}
 
-	s.state |= OutputStreamClosed
 	// We wrote the opening stream instead of encoding it, so do the same with the
 	// closing to ensure that the encoder doesn't think the tokens are mismatched.
 	return intstream.Close(s.Conn(), &s.out.Info)
